@@ -23,8 +23,6 @@ var (
 	Alt     *cpualt.CPU
 	// Sys is an emulator.System whose bus is a copy of MainBus (one RAM over MainMem, whole range).
 	Sys *emulator.System
-	// Sys2 is a second System over SpecMem (for with/without-logger comparisons).
-	Sys2 *emulator.System
 )
 
 func init() {
@@ -33,18 +31,15 @@ func init() {
 		panic(err)
 	}
 	Main, _ = cpu65c816.New(MainBus)
+	// InitFrom builds the opcode table without Bus.Init's 2^21 open-bus closures; every table entry is
+	// attached below, and every register is overwritten by the harnesses
 	Alt = &cpualt.CPU{}
-	Alt.Init()
+	Alt.InitFrom(&cpualt.CPU{})
 	Alt.Bus.AttachReader(0x000000, 0xFFFFFF, func(addr uint32) uint8 { return AltMem[addr] })
 	Alt.Bus.AttachWriter(0x000000, 0xFFFFFF, func(addr uint32, val uint8) { AltMem[addr] = val })
 	Sys = &emulator.System{}
 	Sys.Bus = *MainBus
 	Sys.CPU.Init(&Sys.Bus)
-	Sys2 = &emulator.System{}
-	if err := Sys2.Bus.Attach(memory.NewRAM(SpecMem, 0), "ram", 0x000000, 0xFFFFFF); err != nil {
-		panic(err)
-	}
-	Sys2.CPU.Init(&Sys2.Bus)
 }
 
 // Pre is an arbitrary register state (all raw fields of the interpreters' CPU structs).
